@@ -1,4 +1,84 @@
-// unit `nonsym_cones` : stage 1
+// unit `nonsym_cones` : the three nonsymmetric cones (cones/expcone.rs, powcone.rs, genpowcone.rs), their shared code
+// (cones/nonsymmetric_common.rs) and the 3 x 3 symmetric helper type (algebra/densesym3x3/mod.rs).  Serves C07 (the initial point is the
+// documented central point, s == z, every entry written), C11 (get_Hs / mul_Hs agree), C15 (GenPowerCone::step_length), C04 (panic-freedom).
+// Not repeated here: rectify_equilibration of the three cones (unit `rectify`), PowerCone / ExponentialCone::step_length and
+// backtrack_search (unit `steplen`).
+// float model: every contract states the written entries as the exact float expression over the uninterpreted symbols of
+// prelude/float_opaque.rs (+ local f_ln, f_exp, f_powf, f_pi, f_wright_omega); no arithmetic axiom is used by a function contract.  The F-real
+// axioms (prelude/float_real_axioms.rs) are used only by the three lemmas at the end.
+//
+// PROVED from the real bodies (extracted, never retyped), with frames (what is not mentioned is unchanged: `*final(self) == *old(self)`,
+// untouched `&mut` arguments, lengths):
+//   DenseMatrixSym3: zeros, index_linear (slot of (r, c) = tri(max) + min: the packed upper triangle, column by column; lemma_sym3_table ties it to
+//     the documented order 00,01,11,02,12,22), Index::index / IndexMut::index_mut (entry (r, c); exactly that slot can change), mul (y_i = row i of
+//     the SYMMETRIC matrix times x), quad_form, norm_fro (off-diagonals twice), scaled_from, copy_from, cholesky_3x3_explicit_factor / _solve
+//     (panic-freedom only: every (r, c) inside 3 x 3);  scalarmath.rs: triangular_number, logsafe (second copies).
+//   ExponentialCone and PowerCone (same list): new (all zero; alpha stored), degree = numel = 3, is_symmetric = false, is_sparse_expandable =
+//     false, allows_primal_dual_scaling = TRUE and Hs_is_diagonal = false (the task text said false / no-op for two of these: the code and the
+//     comment in cones/mod.rs - "report false here if only dual scaling is implemented (e.g. GenPowerCone)" - say otherwise; set_identity_scaling is
+//     `unreachable!()`, not a no-op), unit_initialization (exp: s = z = (-1.051383945322714, 0.556409619469370, 1.258967884768947) as
+//     literals; pow: s = z = (sqrt(1 + a), sqrt(1 + (1 - a)), 0); all six entries), update_scaling (true; z copy stored; grad / H_dual = the
+//     dual gradient / Hessian expressions at z; Hs per strategy, built from the NEW H_dual, grad), get_Hs (block[tri(c) + r] = Hs(r, c), 6 entries),
+//     mul_Hs (y = Hs x by rows of the symmetric matrix), affine_ds (ds = s), combined_ds_shift (shift_i = grad_i*sigma_mu - eta_i, eta =
+//     higher_correction_spec(cone, step_s, step_z); step vectors untouched), Delta_s_from_Delta_z_offset (out = ds), compute_barrier (0 + dual barrier at
+//     z + a*dz + primal barrier at s + a*ds), is_primal_feasible / is_dual_feasible (the strict comparisons on the documented cone inequalities),
+//     update_dual_grad_H (all 3 + 6 written entries), barrier_dual (the documented formula), barrier_primal (exp: through f_wright_omega; pow:
+//     through the assumed primal gradient), exp gradient_primal, split_borrow_mut, higher_correction_body (REAL body: no panic for vectors of
+//     length 3, cone not modified - the provable half of the assumed contract below);
+//     margins / scaled_unit_shift / set_identity_scaling (`unreachable!()`; rule `unreach`: the panic is divergence): `ensures false`, i.e. a call
+//     never returns - a body that returns fails it.  That they are never CALLED is the callers' obligation and is argued by inspection: the only
+//     call chains are default_start -> set_identity_scaling and default_start -> symmetric_initialization -> _shift_to_cone_interior ->
+//     CompositeCone::{margins, scaled_unit_shift}, both under `if self.cones.is_symmetric()`, and the composite flag is the conjunction of the
+//     per-cone flags (is_symmetric() == false is proved here for all three cones).  (A contract `requires false` would be vacuous for check.py.)
+//   nonsymmetric_common.rs, instantiated at C = ExponentialCone and C = PowerCone (units/inc/nonsym3d_utils.rs): update_Hs (Dual -> Hs = mu*H
+//     with the mu handed in; otherwise the primal-dual update), use_dual_scaling, use_primal_dual_scaling (pd_scaled: the documented
+//     Hs = s s'/<s,z> + ds ds'/<ds,dz> + t axis axis' with every intermediate - mu = <s,z>/3, mut, ds, dz, de1, de2, tmp, t, axis - as the float
+//     expression evaluated; the four fallback conditions; fallback Hs = mu*H with the LOCAL mu = <s,z>/3; H_dual, grad, z, alpha untouched),
+//     newton_raphson_onesided (terminates within 100 passes, no panic, for total closures).
+//   GenPowerConeData::new (rule R26: whenever it returns, both input checks hold - gp_alpha_ok - and every vector has its length and is zero,
+//     mu = 1, d2 = 0, psi = 1/sumsq(alpha)), GenPowerCone::{new, dim1, dim2, dim, degree (dim1 + 1), numel, is_symmetric (false),
+//     is_sparse_expandable (true), allows_primal_dual_scaling (false), Hs_is_diagonal (true), unit_initialization (sqrt(1 + alpha_i) | 0; z = s),
+//     update_scaling (mu and z stored), get_Hs (mu*d1_i | mu*d2), mul_Hs (gp_mulHs_entry), affine_ds, combined_ds_shift (grad_i*sigma_mu),
+//     Delta_s_from_Delta_z_offset, compute_barrier (PRIMAL barrier first), step_length (contract shape of unit `steplen`; work vector restored)};
+//     margins / scaled_unit_shift / set_identity_scaling: `ensures false` as above.
+//   Lemmas (F-real): lemma_Hs_block_is_operator (C11: the block get_Hs writes, read as a symmetric matrix, times x is what mul_Hs returns),
+//     lemma_pow_central_real (1 + (1 - a) = 2 - a), lemma_exp_primal_accept_no_panic (see OPEN ITEM 1).
+// ASSUMED:
+//   * `unreachable_panic()` does not return (what a panic is); prelude/float_opaque.rs, prelude/vecmath_assumed.rs (copy_from, set, scale, axpby, waxpby, scalarop_from, dot, sum, sumsq: proved in unit
+//     `vecmath`), VectorMath::normalize (local extension trait; proved in unit `vecmath_more`), backtrack_search (proved in unit `steplen`, same
+//     contract text), `core::mem::take` returns the old value;
+//   * stand-ins with uninterpreted results, each a function of exactly what the body reads: higher_correction of exp / pow (value; "cone not
+//     modified" and panic-freedom are PROVED on the real body, see higher_correction_body), PowerCone::gradient_primal (Newton iteration
+//     `_newton_raphson_powcone`, two closures), `_wright_omega` (value f_wright_omega(z); precondition = its documented panic `z < 0`),
+//     GenPowerCone::{update_dual_grad_H (writes grad, p, q, r, d1, d2 only), barrier_primal (scratch: work_pb), barrier_dual,
+//     is_primal_feasible, is_dual_feasible};
+//   * F-real: prelude/float_real_axioms.rs, and the local ADMITTED block `ln_ax` (log is a function of the real value; log(1/x) = -log x for
+//     x > 0) used ONLY by lemma_exp_primal_accept_no_panic.  canary_real_axioms and canary_ln must FAIL.
+// DROPPED (not under contract): `_wright_omega` body (raw f64 constant arithmetic `1. / 16.0`: vstd's f64 division has preconditions),
+//   `_newton_raphson_powcone`, `_newton_raphson_genpowcone`, PowerCone::gradient_primal, GenPowerCone::{update_dual_grad_H, barrier_primal,
+//   barrier_dual, gradient_primal, is_primal_feasible, is_dual_feasible (closure with `-> T` return type inside fold: R24 does not take it),
+//   higher_correction (`unimplemented!()`, never called: combined_ds_shift has no correction)}; the arithmetic content of the Cholesky pair.
+// OPEN ITEMS:
+//   1. (C04) `_wright_omega` panics for a negative argument.  ExponentialCone::{compute_barrier, update_scaling / update_Hs /
+//      use_primal_dual_scaling (strategy != Dual), gradient_primal, barrier_primal} therefore carry the explicit precondition `primal_pre`
+//      (1 - s0/s1 - log(s1/s2) is not < 0 at the point evaluated).  lemma_exp_primal_accept_no_panic proves, in exact arithmetic, that every
+//      point is_primal_feasible accepts satisfies it (the argument is > 1).  That the solver only evaluates these functions at accepted points
+//      (backtrack_step_to_barrier shrinks an accepted step; update_scaling runs at the iterate) is by inspection, not proved; the composite
+//      contracts of unit `composite` do not carry the precondition.
+//   2. (C04) GenPowerCone::update_dual_grad_H contains `assert!(zeta > 0)` (panics if the iterate is not strictly dual feasible): body dropped.
+//   3. additions to tools/extract.py (additive): rule `tupassignx` ((z[0], z[1], z[2]) = (s[0], s[1], s[2]) -> three assignments), rule
+//      `unreach` (`unreachable!();` -> `return unreachable_panic();`, a local fn with `ensures false`), directive `//@after_loop k`.
+// MUTATION ROUND (scratch copy of /repo, one wrong edit at a time, whole unit re-verified): 65 valid wrong edits, 65 rejected by a named
+//   obligation, 0 survivors (one further edit did not compile).  E.g. PowerCone::unit_initialization `s[2] = 0` written to `z[2]`; central-point
+//   digits swapped / one digit changed; z copied from the wrong component; DenseMatrixSym3::mul wrong row, packing order of index_linear,
+//   norm_fro off-diagonals once, quad_form entry, scaled_from index; get_Hs / mul_Hs from H_dual; affine_ds / offset copying z; compute_barrier
+//   with -alpha, swapped points, wrong direction; `>=` or wrong component in the four feasibility tests; the flags; shift with +eta, swapped
+//   correction arguments; update_Hs dispatch flipped; 8 edits inside use_primal_dual_scaling (condition, ds, swapped denominators, fallback mu,
+//   cross product, loop bounds, de2); use_dual_scaling direction; update_scaling without the z copy / in the wrong order; split_borrow_mut
+//   swapped; gradient / Hessian / barrier signs; 16 edits in genpowcone.rs; logsafe `<`; Newton counter dropped; higher_correction index / frame;
+//   `unreachable!()` replaced by a returning body (margins, set_identity_scaling).
+// COST: 156 obligations, about 20 s; heaviest: use_primal_dual_scaling 6.9 M (exp) / 6.4 M (pow) of the 150 M of `--rlimit 50` (4.6 %),
+//   GenPowerCone::mul_Hs 1.6 M, everything else below 1 M.  Stable under Z3 seeds 1-6 (tools/stability_probe.py).
 use vstd::prelude::*;
 verus! {
 global size_of usize == 8;
@@ -34,6 +114,8 @@ pub proof fn lemma_shr1(x: usize) ensures x >> 1 == x / 2 { assert(x >> 1 == x /
         lemma_shr1((k * (k + 1)) as usize);
     }
 //@end
+// rule `unreach`: `unreachable!()` seen from the caller - the call does not return (ASSUMED: this is what a panic is)
+#[verifier::external_body] pub fn unreachable_panic<T>() -> (r: T) ensures false { panic!() }
 pub open spec fn logsafe_spec(x: F) -> F { if f_le(x, f_zero()) { f_neg(f_inf()) } else { f_ln(x) } }
 pub trait ScalarMath: Sized { fn logsafe(&self) -> Self; }
 impl ScalarMath for F {
@@ -344,21 +426,23 @@ impl ExponentialCone<F> {
 //@contract
     ensures !r,
 //@end
-//@fn file=src/solver/core/cones/expcone.rs in="Cone<T> for ExponentialCone<T>" name=margins rules=R1,R2 ret=r
+//@fn file=src/solver/core/cones/expcone.rs in="Cone<T> for ExponentialCone<T>" name=margins rules=R1,R2,unreach ret=r
 //@contract
     // unreachable!(): "We should never end up shifting to this cone, since asymmetric problems should always use unit_initialization".
-    // The only caller chain is _shift_to_cone_interior <- symmetric_initialization <- default_start under `if self.cones.is_symmetric()`,
-    // and CompositeCone::is_symmetric is the conjunction of the per-cone flags (is_symmetric() == false here): never called.
-    requires false,
+    // Rule `unreach`: the panic is modelled as divergence; the contract says the call NEVER RETURNS (a body that does return fails it).
+    // Why it is never called (by inspection, the obligation of the callers): the only caller chain is CompositeCone::margins <-
+    // _shift_to_cone_interior <- symmetric_initialization <- default_start under `if self.cones.is_symmetric()`, and
+    // CompositeCone::is_symmetric is the conjunction of the per-cone flags (is_symmetric() == false here, proved above).
+    ensures false,
 //@end
-//@fn file=src/solver/core/cones/expcone.rs in="Cone<T> for ExponentialCone<T>" name=scaled_unit_shift rules=R1,R2
+//@fn file=src/solver/core/cones/expcone.rs in="Cone<T> for ExponentialCone<T>" name=scaled_unit_shift rules=R1,R2,unreach
 //@contract
-    requires false,     // as for margins
+    ensures false,     // as for margins
 //@end
-//@fn file=src/solver/core/cones/expcone.rs in="Cone<T> for ExponentialCone<T>" name=set_identity_scaling rules=R1,R2
+//@fn file=src/solver/core/cones/expcone.rs in="Cone<T> for ExponentialCone<T>" name=set_identity_scaling rules=R1,R2,unreach
 //@contract
     // unreachable!(): "we never want to allow symmetric initialization"; called by default_start only under cones.is_symmetric()
-    requires false,
+    ensures false,
 //@end
 //@fn file=src/solver/core/cones/expcone.rs in="Cone<T> for ExponentialCone<T>" name=unit_initialization rules=R1,R2,tupassignx
 //@contract
@@ -584,21 +668,18 @@ impl PowerCone<F> {
 //@contract
     ensures !r,
 //@end
-//@fn file=src/solver/core/cones/powcone.rs in="Cone<T> for PowerCone<T>" name=margins rules=R1,R2 ret=r
+//@fn file=src/solver/core/cones/powcone.rs in="Cone<T> for PowerCone<T>" name=margins rules=R1,R2,unreach ret=r
 //@contract
-    // unreachable!(): "We should never end up shifting to this cone, since asymmetric problems should always use unit_initialization".
-    // The only caller chain is _shift_to_cone_interior <- symmetric_initialization <- default_start under `if self.cones.is_symmetric()`,
-    // and CompositeCone::is_symmetric is the conjunction of the per-cone flags (is_symmetric() == false here): never called.
-    requires false,
+    ensures false,     // unreachable!(): see ExponentialCone::margins
 //@end
-//@fn file=src/solver/core/cones/powcone.rs in="Cone<T> for PowerCone<T>" name=scaled_unit_shift rules=R1,R2
+//@fn file=src/solver/core/cones/powcone.rs in="Cone<T> for PowerCone<T>" name=scaled_unit_shift rules=R1,R2,unreach
 //@contract
-    requires false,     // as for margins
+    ensures false,     // as for margins
 //@end
-//@fn file=src/solver/core/cones/powcone.rs in="Cone<T> for PowerCone<T>" name=set_identity_scaling rules=R1,R2
+//@fn file=src/solver/core/cones/powcone.rs in="Cone<T> for PowerCone<T>" name=set_identity_scaling rules=R1,R2,unreach
 //@contract
     // unreachable!(): "we never want to allow symmetric initialization"; called by default_start only under cones.is_symmetric()
-    requires false,
+    ensures false,
 //@end
 //@fn file=src/solver/core/cones/powcone.rs in="Cone<T> for PowerCone<T>" name=unit_initialization rules=R1,R2,tupassignx
 //@contract
@@ -824,17 +905,17 @@ impl GenPowerCone<F> {
     // get_Hs returns "the diagonal D = [d1; d2] block"; the low-rank part p, q, r goes into the sparse expansion
     ensures r,
 //@end
-//@fn file=src/solver/core/cones/genpowcone.rs in="Cone<T> for GenPowerCone<T>" name=margins rules=R1,R2 ret=r
+//@fn file=src/solver/core/cones/genpowcone.rs in="Cone<T> for GenPowerCone<T>" name=margins rules=R1,R2,unreach ret=r
 //@contract
-    requires false,     // unreachable!(): see ExponentialCone::margins
+    ensures false,     // unreachable!(): see ExponentialCone::margins
 //@end
-//@fn file=src/solver/core/cones/genpowcone.rs in="Cone<T> for GenPowerCone<T>" name=scaled_unit_shift rules=R1,R2
+//@fn file=src/solver/core/cones/genpowcone.rs in="Cone<T> for GenPowerCone<T>" name=scaled_unit_shift rules=R1,R2,unreach
 //@contract
-    requires false,     // unreachable!(): see ExponentialCone::margins
+    ensures false,     // unreachable!(): see ExponentialCone::margins
 //@end
-//@fn file=src/solver/core/cones/genpowcone.rs in="Cone<T> for GenPowerCone<T>" name=set_identity_scaling rules=R1,R2
+//@fn file=src/solver/core/cones/genpowcone.rs in="Cone<T> for GenPowerCone<T>" name=set_identity_scaling rules=R1,R2,unreach
 //@contract
-    requires false,     // unreachable!(): see ExponentialCone::set_identity_scaling
+    ensures false,     // unreachable!(): see ExponentialCone::set_identity_scaling
 //@end
 
     // ASSUMED callees.  update_dual_grad_H (fold / izip arithmetic) rewrites grad, p, q, r, d1, d2 and nothing else; it contains
